@@ -42,6 +42,9 @@ type c09Plan struct {
 	// (spin rendezvous in the harness's probe transport): the health changes they cause, and the rotation updates
 	// after them, contend
 	Together bool `json:"together,omitempty"`
+	// RolloutCycle: before anything else a rollout target is deployed, a split set, stopped and set again; that target,
+	// too, keeps being probed to the end
+	RolloutCycle bool `json:"rollout_cycle,omitempty"`
 }
 
 func c09Gen(t *rapid.T) c09Plan {
@@ -88,6 +91,7 @@ func c09Gen(t *rapid.T) c09Plan {
 	}
 	p.Restart = rapid.IntRange(0, 3).Draw(t, "restart") == 0
 	p.RestoreSlow = p.Restart && rapid.Bool().Draw(t, "restore-slow")
+	p.RolloutCycle = rapid.IntRange(0, 4).Draw(t, "rollout-cycle") == 0
 	p.Together = p.N >= 2 && rapid.IntRange(0, 3).Draw(t, "together") > 0
 	p.DrainAt = -1
 	if rapid.IntRange(0, 2).Draw(t, "drain-episode") == 0 {
@@ -144,6 +148,21 @@ func c09Run(t *testing.T, p c09Plan) (res vfResult) {
 		if err := vfDeploy(r, "svc", names, opts, to, 5*time.Second, time.Second); err != nil {
 			res.failf("setup-failed", "deploy failed: %v", err)
 			return
+		}
+		if p.RolloutCycle {
+			w.target("rt0:80")
+			for _, step := range []func() error{
+				func() error { return vfRolloutDeploy(r, "svc", []string{"rt0:80"}, 5*time.Second, time.Second) },
+				func() error { return vfRolloutSet(r, "svc", 100, nil) },
+				func() error { return vfRolloutStop(r, "svc") },
+				func() error { return vfRolloutSet(r, "svc", 100, nil) },
+			} {
+				if err := step(); err != nil {
+					res.failf("setup-failed", "rollout cycle: %v", err)
+					return
+				}
+			}
+			res.label("rollout-set-stopped-and-set-again")
 		}
 		synctest.Wait()
 		var r2 *Router
@@ -350,6 +369,17 @@ func c09Run(t *testing.T, p c09Plan) (res vfResult) {
 		// probing cadence: never stops, spaced by the interval
 		end := w.now()
 		ivl := vfMs(p.IntervalMs)
+		if p.RolloutCycle {
+			lg := w.targets["rt0:80"].probeLog()
+			if len(lg) == 0 || end-lg[len(lg)-1].At > ivl+timeout {
+				last := time.Duration(-1)
+				if len(lg) > 0 {
+					last = lg[len(lg)-1].At
+				}
+				res.failf("probing-stopped", "rollout target rt0:80 (split set, stopped and set again) was last probed at %v, now %v (interval %v)", last, end, ivl)
+				return
+			}
+		}
 		for i, tg := range tgs {
 			lg := tg.probeLog()[logBase[i]:]
 			if len(lg) == 0 {
